@@ -14,7 +14,7 @@ TMs1 == [text : Texts1, neg : BOOLEAN, mt : MTs]
 PF1 == [name : {"N1"}, test : Tests, isnd : {TRUE}, tms : {<< >>}] \cup [name : {"N1"}, test : Tests, isnd : {FALSE}, tms : Seq02(TMs1)]
        \cup [name : {"N1"}, test : {"anyof", "allof", ""}, isnd : {TRUE}, tms : {<<t>> : t \in [text : {<<"a">>}, neg : BOOLEAN, mt : {"contains", "equals", ""}]}]
 Q1 == [test : Tests, filters : {<<p>> : p \in PF1}, limit : {0}, props : {<< >>}, allprop : {FALSE}]
-Vals1 == {<<"a">>, <<"a", "b">>, <<"b", "a">>, <<"b">>, << >>}
+Vals1 == {<<"a">>, <<"a", "b">>, <<"b", "a">>, <<"b">>, << >>, <<"a", "a">>, <<"a", "b", "a">>}
 BaseCard == <<[n |-> "VERSION", v |-> <<"3.0">>], [n |-> "FN", v |-> <<"f">>]>>
 Cards1 == {BaseCard} \cup {BaseCard \o <<[n |-> "N1", v |-> v]>> : v \in Vals1}
 \* (M2) zero to two prop-filters over two properties
